@@ -5,7 +5,22 @@ import TdModel.Lemmas.C29
 
 namespace TdModel.C29
 
-theorem inv_step (cfg : Cfg) {s s' : State} (a : Action) (hI : Inv s) (h : step cfg s a = some s') : Inv s' := by
+theorem connDead_spec {s : State} {k : Nat} (h : connDead s k = true) (hk : k = s.epoch) : s.alive = false := by
+  unfold connDead at h
+  subst hk
+  simpa using h
+
+/-- A request that fails over parks on the right epoch. -/
+theorem parked_ok {cfg : Cfg} {s : State} {k : Nat} (hk : k ≤ s.epoch) (hd : connDead s k = true) :
+    (if cfg.snapshotBeforeInvoke then k else s.epoch) ≤ s.epoch ∧
+    (cfg.snapshotBeforeInvoke = true → (if cfg.snapshotBeforeInvoke then k else s.epoch) = s.epoch → s.alive = false) ∧
+    k ≤ (if cfg.snapshotBeforeInvoke then k else s.epoch) := by
+  cases hs : cfg.snapshotBeforeInvoke with
+  | true => simp only [if_true]; exact ⟨hk, fun _ he => connDead_spec hd he, Nat.le_refl _⟩
+  | false => simp; exact hk
+
+theorem inv_step (cfg : Cfg) {s s' : State} (a : Action) (hI : Inv cfg.snapshotBeforeInvoke s)
+    (h : step cfg s a = some s') : Inv cfg.snapshotBeforeInvoke s' := by
   cases a with
   | inv r =>
     simp only [step] at h
@@ -14,20 +29,50 @@ theorem inv_step (cfg : Cfg) {s s' : State} (a : Action) (hI : Inv s) (h : step 
       split at h
       · rename_i hp
         cases h
-        obtain ⟨h1, h2, h3, h4, h5, h6⟩ := hI.req r q hq
+        obtain ⟨h1, h2, h3, h4, h5, h6, h7, h8, h9⟩ := hI.req r q hq
         apply inv_setReq hI r q _ hq
-        refine ⟨fun _ => h1 (Or.inl hp), ?_, ?_, h4, ?_, ?_⟩ <;> simp
+        refine ⟨fun _ => h1 (Or.inl hp), by simp, by simp, h4, by simp, by simp, by simp, by simp, fun _ => h6 hp⟩
       · cases h
+    · cases h
+  | bind r =>
+    simp only [step] at h
+    split at h
+    · rename_i q hq
+      obtain ⟨h1, h2, h3, h4, h5, h6, h7, h8, h9⟩ := hI.req r q hq
+      split at h
+      · rename_i hp
+        cases h
+        apply inv_setReq hI r q _ hq
+        refine ⟨fun _ => h1 (Or.inr (Or.inl hp)), by simp, by simp, h4, by simp, by simp, ?_, by simp, by simp⟩
+        intro k hk; simp at hk; subst hk
+        exact ⟨Nat.le_refl _, fun k' hm => absurd hm (h9 hp k')⟩
+      · rename_i w hp
+        split at h
+        · cases h
+          apply inv_setReq hI r q _ hq
+          rename_i hw
+          refine ⟨fun _ => h1 (Or.inr (Or.inr (Or.inr ⟨w, hp⟩))), by simp, by simp, h4, by simp, by simp, ?_, by simp, by simp⟩
+          intro k hk; simp at hk; subst hk
+          refine ⟨Nat.le_refl _, fun k' hm => ?_⟩
+          have := (h8 w hp).2.2 k' hm
+          omega
+        · cases h
+      · cases h
+    · cases h
+  | init =>
+    simp only [step] at h
+    split at h
+    · cases h; exact inv_mono hI rfl (Nat.le_refl _) rfl (fun h => h) (fun _ h => h)
     · cases h
   | arr r k =>
     simp only [step] at h
     split at h
     · rename_i q hq
       have hlt := lt_of_getElem? hq
-      obtain ⟨h1, h2, h3, h4, h5, h6⟩ := hI.req r q hq
+      obtain ⟨h1, h2, h3, h4, h5, h6, h7, h8, h9⟩ := hI.req r q hq
       split at h
       · rename_i hg
-        obtain ⟨hp, hk, hnm⟩ := hg
+        obtain ⟨hp, hk, _, hnm⟩ := hg
         cases h
         refine ⟨?_, ?_, ?_⟩
         · intro r2 q2 hq2
@@ -36,8 +81,8 @@ theorem inv_step (cfg : Cfg) {s s' : State} (a : Action) (hI : Inv s) (h : step 
           · subst hr
             simp [hlt] at hq2
             subst hq2
-            have hnone := h1 (Or.inr hp)
-            refine ⟨by simp, ?_, by simp, ?_, by simp, by simp⟩
+            have hnone := h1 (Or.inr (Or.inr (Or.inl ⟨k, hp⟩)))
+            refine ⟨by simp, ?_, by simp, ?_, by simp, by simp, by simp, by simp, by simp⟩
             · intro k2 hk2
               simp at hk2
               subst hk2
@@ -50,14 +95,14 @@ theorem inv_step (cfg : Cfg) {s s' : State} (a : Action) (hI : Inv s) (h : step 
             · intro a ha
               simp [hnone] at ha
           · simp [hr] at hq2
-            obtain ⟨g1, g2, g3, g4, g5, g6⟩ := hI.req r2 q2 hq2
+            obtain ⟨g1, g2, g3, g4, g5, g6, g7, g8, g9⟩ := hI.req r2 q2 hq2
             have hmem : ∀ k', (r2, k') ∈ (r, k) :: s.arrivals → (r2, k') ∈ s.arrivals := by
               intro k' hm
               simp at hm
               rcases hm with ⟨rfl, _⟩ | hm
               · exact absurd rfl hr
               · exact hm
-            refine ⟨g1, ?_, g3, ?_, g5, ?_⟩
+            refine ⟨g1, ?_, g3, ?_, g5, ?_, ?_, ?_, ?_⟩
             · intro k2 hk2
               obtain ⟨a, b, c⟩ := g2 k2 hk2
               exact ⟨a, b, fun k' hm => c k' (hmem k' hm)⟩
@@ -66,6 +111,14 @@ theorem inv_step (cfg : Cfg) {s s' : State} (a : Action) (hI : Inv s) (h : step 
               exact ⟨b, fun k' hm => c k' (hmem k' hm)⟩
             · intro hid k' hm
               exact g6 hid k' (hmem k' hm)
+            · intro k2 hk2
+              obtain ⟨a, b⟩ := g7 k2 hk2
+              exact ⟨a, fun k' hm => b k' (hmem k' hm)⟩
+            · intro w hw
+              obtain ⟨a, b, c⟩ := g8 w hw
+              exact ⟨a, b, fun k' hm => c k' (hmem k' hm)⟩
+            · intro hrd k' hm
+              exact g9 hrd k' (hmem k' hm)
         · intro r2 k2 hm
           simp at hm
           rcases hm with ⟨rfl, rfl⟩ | hm
@@ -84,7 +137,7 @@ theorem inv_step (cfg : Cfg) {s s' : State} (a : Action) (hI : Inv s) (h : step 
             by_cases hr : r = r2
             · subst hr
               rw [hq] at hq2'; cases hq2'
-              refine ⟨h1, ?_, h3, ?_, h5, ?_⟩
+              refine ⟨h1, ?_, h3, ?_, h5, ?_, ?_, ?_, ?_⟩
               · intro k2 hk2
                 obtain ⟨a, b, c⟩ := h2 k2 hk2
                 refine ⟨a, b, ?_⟩
@@ -103,14 +156,32 @@ theorem inv_step (cfg : Cfg) {s s' : State} (a : Action) (hI : Inv s) (h : step 
                 · exact c k' hm
               · intro hid
                 rw [hid] at hl2; simp at hl2
-            · obtain ⟨g1, g2, g3, g4, g5, g6⟩ := hI.req r2 q2 hq2'
+              · intro k2 hk2
+                obtain ⟨a, b⟩ := h7 k2 hk2
+                refine ⟨a, ?_⟩
+                intro k' hm
+                simp at hm
+                rcases hm with rfl | hm
+                · rw [hk2] at hl2; simpa using hl2
+                · exact b k' hm
+              · intro w hw
+                obtain ⟨a, b, c⟩ := h8 w hw
+                refine ⟨a, b, ?_⟩
+                intro k' hm
+                simp at hm
+                rcases hm with rfl | hm
+                · rw [hw] at hl2; simpa using hl2
+                · exact c k' hm
+              · intro hrd
+                rw [hrd] at hl2; simp at hl2
+            · obtain ⟨g1, g2, g3, g4, g5, g6, g7, g8, g9⟩ := hI.req r2 q2 hq2'
               have hmem : ∀ k', (r2, k') ∈ (r, k) :: s.arrivals → (r2, k') ∈ s.arrivals := by
                 intro k' hm
                 simp at hm
                 rcases hm with ⟨rfl, _⟩ | hm
                 · exact absurd rfl hr
                 · exact hm
-              refine ⟨g1, ?_, g3, ?_, g5, ?_⟩
+              refine ⟨g1, ?_, g3, ?_, g5, ?_, ?_, ?_, ?_⟩
               · intro k2 hk2
                 obtain ⟨a, b, c⟩ := g2 k2 hk2
                 exact ⟨a, b, fun k' hm => c k' (hmem k' hm)⟩
@@ -119,6 +190,14 @@ theorem inv_step (cfg : Cfg) {s s' : State} (a : Action) (hI : Inv s) (h : step 
                 exact ⟨b, fun k' hm => c k' (hmem k' hm)⟩
               · intro hid k' hm
                 exact g6 hid k' (hmem k' hm)
+              · intro k2 hk2
+                obtain ⟨a, b⟩ := g7 k2 hk2
+                exact ⟨a, fun k' hm => b k' (hmem k' hm)⟩
+              · intro w hw
+                obtain ⟨a, b, c⟩ := g8 w hw
+                exact ⟨a, b, fun k' hm => c k' (hmem k' hm)⟩
+              · intro hrd k' hm
+                exact g9 hrd k' (hmem k' hm)
           · intro r2 k2 hm
             simp at hm
             rcases hm with ⟨rfl, rfl⟩ | hm
@@ -130,25 +209,25 @@ theorem inv_step (cfg : Cfg) {s s' : State} (a : Action) (hI : Inv s) (h : step 
   | ack r k =>
     simp only [step] at h
     split at h
-    · cases h; exact inv_mono hI rfl (Nat.le_refl _) rfl (fun h => h)
+    · cases h; exact inv_mono hI rfl (Nat.le_refl _) rfl (fun h => h) (fun _ h => h)
     · cases h
   | res r k =>
     simp only [step] at h
     split at h
-    · cases h; exact inv_mono hI rfl (Nat.le_refl _) rfl (fun h => h)
+    · cases h; exact inv_mono hI rfl (Nat.le_refl _) rfl (fun h => h) (fun _ h => h)
     · cases h
   | seen r =>
     simp only [step] at h
     split at h
     · rename_i q hq
-      obtain ⟨h1, h2, h3, h4, h5, h6⟩ := hI.req r q hq
+      obtain ⟨h1, h2, h3, h4, h5, h6, h7, h8, h9⟩ := hI.req r q hq
       split at h
       · rename_i k hp
         split at h
         · cases h
           obtain ⟨a, b, c⟩ := h2 k hp
           apply inv_setReq hI r q _ hq
-          refine ⟨by simp, by simp, by simp, ?_, by simp, by simp⟩
+          refine ⟨by simp, by simp, by simp, ?_, by simp, by simp, by simp, by simp, by simp⟩
           intro a' ha'
           simp at ha'
           subst ha'
@@ -160,43 +239,59 @@ theorem inv_step (cfg : Cfg) {s s' : State} (a : Action) (hI : Inv s) (h : step 
   | kill =>
     simp only [step] at h
     split at h
-    · cases h; exact inv_mono hI rfl (Nat.le_refl _) rfl (fun h => h)
+    · cases h; exact inv_mono hI rfl (Nat.le_refl _) rfl (fun h => h) (fun _ _ => rfl)
     · cases h
   | fail r =>
     simp only [step] at h
     split at h
     · rename_i q hq
-      obtain ⟨h1, h2, h3, h4, h5, h6⟩ := hI.req r q hq
+      obtain ⟨h1, h2, h3, h4, h5, h6, h7, h8, h9⟩ := hI.req r q hq
       split at h
       · rename_i k hp
         split at h
-        · cases h
+        · rename_i hg
+          cases h
           obtain ⟨a, b, c⟩ := h2 k hp
+          obtain ⟨p1, p2, p3⟩ := parked_ok (cfg := cfg) b hg.1
           apply inv_setReq hI r q _ hq
-          refine ⟨fun _ => a, by simp, by simp, h4, by simp, by simp⟩
+          refine ⟨fun _ => a, by simp, by simp, h4, by simp, by simp, by simp, ?_, by simp⟩
+          intro w hw; simp at hw; subst hw
+          exact ⟨p1, p2, fun k' hm => Nat.le_trans (c k' hm) p3⟩
+        · cases h
+      · rename_i k hp
+        split at h
+        · rename_i hg
+          cases h
+          have a := h1 (Or.inr (Or.inr (Or.inl ⟨k, hp⟩)))
+          obtain ⟨p1, p2, p3⟩ := parked_ok (cfg := cfg) (h7 k hp).1 hg.1
+          apply inv_setReq hI r q _ hq
+          refine ⟨fun _ => a, by simp, by simp, h4, by simp, by simp, by simp, ?_, by simp⟩
+          intro w hw; simp at hw; subst hw
+          exact ⟨p1, p2, fun k' hm => Nat.le_trans (Nat.le_of_lt ((h7 k hp).2 k' hm)) p3⟩
         · cases h
       · cases h
     · cases h
   | reconnect =>
     simp only [step] at h
     split at h
-    · cases h; exact inv_mono hI rfl (Nat.le_succ _) rfl (fun h => h)
+    · cases h
+      exact inv_mono hI rfl (Nat.le_succ _) rfl (fun h => h) (fun he _ => absurd he (Nat.succ_ne_self _))
     · cases h
   | retOk r =>
     simp only [step] at h
     split at h
     · rename_i q hq
-      obtain ⟨h1, h2, h3, h4, h5, h6⟩ := hI.req r q hq
+      obtain ⟨h1, h2, h3, h4, h5, h6, h7, h8, h9⟩ := hI.req r q hq
       split at h
       · split at h
         · cases h
           apply inv_setReq hI r q _ hq
-          exact ⟨by simp, by simp, by simp, h4, by simp, by simp⟩
+          exact ⟨by simp, by simp, by simp, h4, by simp, by simp, by simp, by simp, by simp⟩
         · cases h
       · split at h
         · cases h
           apply inv_setReq hI r q _ hq
-          exact ⟨by simp, by simp, by simp, h4, by simp, by simp⟩
+          exact ⟨by simp, by simp, by simp, h4, by simp, by simp, by simp, by simp, by simp⟩
         · cases h
       · cases h
     · cases h
@@ -204,7 +299,7 @@ theorem inv_step (cfg : Cfg) {s s' : State} (a : Action) (hI : Inv s) (h : step 
     simp only [step] at h
     split at h
     · rename_i q hq
-      obtain ⟨h1, h2, h3, h4, h5, h6⟩ := hI.req r q hq
+      obtain ⟨h1, h2, h3, h4, h5, h6, h7, h8, h9⟩ := hI.req r q hq
       split at h
       · cases h
       · cases h
@@ -214,38 +309,41 @@ theorem inv_step (cfg : Cfg) {s s' : State} (a : Action) (hI : Inv s) (h : step 
         · rename_i hc
           cases h
           apply inv_setReq hI r q _ hq
-          exact ⟨by simp, by simp, by simp, h4, fun _ => Or.inr (Or.inl ⟨rfl, hc.1⟩), by simp⟩
+          exact ⟨by simp, by simp, by simp, h4, fun _ => Or.inr (Or.inl ⟨rfl, hc.1⟩), by simp, by simp, by simp, by simp⟩
         · split at h
           · cases h
             apply inv_setReq hI r q _ hq
-            refine ⟨by simp, by simp, by simp, h4, fun _ => Or.inl ⟨rfl, ?_⟩, by simp⟩
+            refine ⟨by simp, by simp, by simp, h4, fun _ => Or.inl ⟨rfl, ?_⟩, by simp, by simp, by simp, by simp⟩
             simp [h3 k hp]
           · cases h
       · split at h
         · rename_i hc
           cases h
           apply inv_setReq hI r q _ hq
-          exact ⟨by simp, by simp, by simp, h4, fun _ => Or.inr (Or.inl ⟨rfl, hc.1⟩), by simp⟩
+          exact ⟨by simp, by simp, by simp, h4, fun _ => Or.inr (Or.inl ⟨rfl, hc.1⟩), by simp, by simp, by simp, by simp⟩
         · cases h
     · cases h
   | sendFail r =>
     simp only [step] at h
     split at h
     · rename_i q hq
-      obtain ⟨h1, h2, h3, h4, h5, h6⟩ := hI.req r q hq
+      obtain ⟨h1, h2, h3, h4, h5, h6, h7, h8, h9⟩ := hI.req r q hq
       split at h
-      · cases h
-        apply inv_setReq hI r q _ hq
-        exact ⟨by simp, by simp, by simp, h4, fun _ => Or.inr (Or.inr rfl), by simp⟩
+      · split at h
+        · cases h
+          apply inv_setReq hI r q _ hq
+          exact ⟨by simp, by simp, by simp, h4, fun _ => Or.inr (Or.inr rfl), by simp, by simp, by simp, by simp⟩
+        · cases h
       · cases h
     · cases h
   | close =>
     simp only [step] at h
     split at h
     · cases h
-    · cases h; exact inv_mono hI rfl (Nat.le_refl _) rfl (fun _ => rfl)
+    · cases h; exact inv_mono hI rfl (Nat.le_refl _) rfl (fun _ => rfl) (fun _ _ => rfl)
 
-theorem inv_run (cfg : Cfg) (as : List Action) {s s' : State} (hI : Inv s) (h : run cfg s as = some s') : Inv s' := by
+theorem inv_run (cfg : Cfg) (as : List Action) {s s' : State} (hI : Inv cfg.snapshotBeforeInvoke s)
+    (h : run cfg s as = some s') : Inv cfg.snapshotBeforeInvoke s' := by
   induction as generalizing s with
   | nil => simp [run] at h; subst h; exact hI
   | cons a as ih =>
@@ -254,8 +352,8 @@ theorem inv_run (cfg : Cfg) (as : List Action) {s s' : State} (hI : Inv s) (h : 
     · rename_i s1 h1; exact ih (inv_step cfg a hI h1) h
     · cases h
 
-theorem inv_reachable {cfg : Cfg} {n : Nat} {s : State} (h : Reachable cfg n s) : Inv s := by
+theorem inv_reachable {cfg : Cfg} {n : Nat} {s : State} (h : Reachable cfg n s) : Inv cfg.snapshotBeforeInvoke s := by
   obtain ⟨as, h⟩ := h
-  exact inv_run cfg as (inv_init n) h
+  exact inv_run cfg as (inv_init _ n) h
 
 end TdModel.C29
